@@ -1183,3 +1183,133 @@ Proof.
     destruct Hor as [E|E]; subst t1'; try assumption; try (apply Hf; exact Ht2).
   rewrite Hsn. exact Ht1.
 Qed.
+
+(* ===================================================================================== *)
+(** * Witnesses (findings) and non-vacuity                                                 *)
+
+(* C12, rows: "=A$1048576" in A1, one row inserted at row 2: the statement asks for "#REF!";
+   the rewrite yields the text "A$1048577", which is neither "#REF!" nor a reference *)
+Theorem ins_row_overflow_refuted :
+  exists s r k same q a,
+    0 < k /\ grid q /\ grid (resolve q a) /\ a_sheet a = s /\
+    r <= fst (resolve q a) /\ LAST_ROW < fst (resolve q a) + k /\
+    apply_disp_full (DRow s r k) same q a = RwUnreadable /\
+    apply_disp_full (DRow s r k) same q a <> RwRefError /\
+    displace_text (DRow s r k) false false q a = [65; 36; 49; 48; 52; 56; 53; 55; 55] /\
+    parse_reference_a1 (displace_text (DRow s r k) false false q a) = None.
+Proof.
+  exists 0, 2, 1, true, (1, 1), row_overflow_witness. vm_compute.
+  repeat split; try discriminate; intro H; discriminate H.
+Qed.
+
+(* the same edit on columns does give "#REF!" *)
+Example ins_col_overflow_is_ref_error :
+  apply_disp_full (DCol 0 2 1) true (1, 1)
+    {| a_sheet := 0; a_row := 1; a_col := LAST_COLUMN; a_abs_row := false; a_abs_col := true |} = RwRefError.
+Proof. vm_compute. reflexivity. Qed.
+
+(* the premises of the rewrite theorems are satisfiable, and the conclusions are what one
+   expects on a concrete sheet: "=B$5" in C7, two rows inserted at row 3 -> "=B$7" in C9 *)
+Example ins_row_rewrite_example :
+  apply_disp_full (DRow 0 3 2) true (7, 3)
+    {| a_sheet := 0; a_row := 5; a_col := -1; a_abs_row := true; a_abs_col := false |} =
+  RwRef (9, 3) {| a_sheet := 0; a_row := 7; a_col := -1; a_abs_row := true; a_abs_col := false |}.
+Proof. vm_compute. reflexivity. Qed.
+
+(* "=B5" (relative) in C7, rows 4..5 deleted -> "#REF!"; "=B6" -> "=B4" seen from C5 *)
+Example del_row_rewrite_example :
+  apply_disp_full (DRow 0 4 (-2)) true (7, 3)
+    {| a_sheet := 0; a_row := -2; a_col := -1; a_abs_row := false; a_abs_col := false |} = RwRefError /\
+  apply_disp_full (DRow 0 4 (-2)) true (7, 3)
+    {| a_sheet := 0; a_row := -1; a_col := -1; a_abs_row := false; a_abs_col := false |} =
+  RwRef (5, 3) {| a_sheet := 0; a_row := -1; a_col := -1; a_abs_row := false; a_abs_col := false |}.
+Proof. vm_compute. split; reflexivity. Qed.
+
+Example then_disp_example :
+  then_disp (DRow 0 3 2) (DRow 0 3 (-2)) true (7, 3)
+    {| a_sheet := 0; a_row := -2; a_col := 4; a_abs_row := false; a_abs_col := true |} =
+  Some ((7, 3), {| a_sheet := 0; a_row := -2; a_col := 4; a_abs_row := false; a_abs_col := true |}).
+Proof. vm_compute. reflexivity. Qed.
+
+(* rows 2..3 moved down by 2: 1 2 3 4 5 6 -> 1 4 5 2 3 6 *)
+Example block_move_example :
+  map (iterate_moves 2 2 2) [1; 2; 3; 4; 5; 6] = [1; 4; 5; 2; 3; 6] /\
+  map (block_move 2 2 2) [1; 2; 3; 4; 5; 6] = [1; 4; 5; 2; 3; 6].
+Proof. vm_compute. split; reflexivity. Qed.
+
+(* hidden lines: moving row 3 down by 1 when row 5 (one past the landing zone) is hidden uses
+   delta 2; with the exclusive bound it would use delta 1 *)
+Example hidden_adjust_example :
+  hidden_adjust (fun x => x =? 5) LAST_ROW 3 1 1 = Ok 2 /\
+  hidden_adjust_excl (fun x => x =? 5) LAST_ROW 3 1 1 = Ok 1 /\
+  hidden_adjust (fun _ => false) LAST_ROW (LAST_ROW - 1) 1 1 = Err /\
+  move_valid LAST_ROW (LAST_ROW - 1) 1 1 = true.
+Proof. vm_compute. repeat split; reflexivity. Qed.
+
+(* the block move at the level of stored references: the code's sequence of single moves,
+   each re-typing, displacing and re-parsing, sends a reference to [block_move] of its target *)
+Lemma apply_disp_seq_rows s ds same q a :
+  Forall (fun d => exists i dd, d = DRowMove s i dd /\ 1 <= i <= LAST_ROW /\ 1 <= i + dd <= LAST_ROW) ds ->
+  a_sheet a = s ->
+  1 <= fst (resolve q a) <= LAST_ROW -> 1 <= snd (resolve q a) <= LAST_COLUMN ->
+  exists q' a' t,
+    apply_disp_seq ds same q a = RwRef q' a' /\ follows q' a a' t /\
+    displace_pos_seq ds s (resolve q a) = Some t /\
+    (if same then displace_pos_seq ds s q = Some q' else q' = q).
+Proof.
+  intro HF. revert q a. induction HF as [|d ds [i [dd [Hd [Hi Hid]]]] HF IH]; intros q a Hs Hr Hc.
+  - exists q, a, (resolve q a). cbn [apply_disp_seq displace_pos_seq]. unfold follows.
+    repeat split; try reflexivity. destruct same; reflexivity.
+  - subst d. destruct (resolve q a) as [row col] eqn:Eres. cbn [fst snd] in Hr, Hc.
+    assert (Hq : exists q1, anchor_map (DRowMove s i dd) same q = Some q1 /\
+                 (if same then displace_pos (DRowMove s i dd) false false s q = Some q1 else q1 = q)).
+    { destruct same; cbn [anchor_map].
+      - destruct q as [qr qc]. eexists; split; [reflexivity|]. cbn [displace_pos cell_map]. rewrite Z.eqb_refl. reflexivity.
+      - eexists; split; reflexivity. }
+    destruct Hq as [q1 [Hq1 Hq1']].
+    destruct (move_row_rewrite s i dd same q q1 a row col Hi Hid Hs Eres Hr Hc Hq1) as [a1 [Ha1 Hf1]].
+    destruct Hf1 as [Hres1 [Har1 [Hac1 Hsh1]]].
+    pose proof (single_move_range LAST_ROW i dd row Hi Hid Hr) as Hb.
+    destruct (IH q1 a1) as [q' [a' [t [Hseq [Hfol [Hpos Hanch]]]]]].
+    + rewrite Hsh1. exact Hs.
+    + rewrite Hres1. cbn [fst]. exact Hb.
+    + rewrite Hres1. cbn [snd]. exact Hc.
+    + exists q', a', t. cbn [apply_disp_seq displace_pos_seq]. rewrite Ha1. split; [exact Hseq|]. split.
+      * destruct Hfol as [A [B [C D]]]. unfold follows. rewrite B, C, D, Har1, Hac1, Hsh1. auto.
+      * split.
+        -- cbn [displace_pos]. rewrite Z.eqb_refl. rewrite Hres1 in Hpos. exact Hpos.
+        -- destruct same; [|subst q1; exact Hanch]. rewrite Hq1'. exact Hanch.
+Qed.
+
+Lemma move_disps_rows_valid s i n d :
+  1 <= i -> i + Z.of_nat n - 1 <= LAST_ROW -> 1 <= i + d -> i + Z.of_nat n - 1 + d <= LAST_ROW ->
+  Forall (fun x => exists j dd, x = DRowMove s j dd /\ 1 <= j <= LAST_ROW /\ 1 <= j + dd <= LAST_ROW)
+         (move_disps true s i n d).
+Proof.
+  intros H1 H2 H3 H4. unfold move_disps. destruct (0 <? d).
+  - clear - H1 H2 H3 H4. induction n as [|n IH]; cbn [move_disps_last_first]; constructor.
+    + exists (i + Z.of_nat n), d. split; [reflexivity|]. lia.
+    + apply IH; lia.
+  - clear - H1 H2 H3 H4. revert i H1 H2 H3 H4. induction n as [|n IH]; intros i H1 H2 H3 H4;
+      cbn [move_disps_first_first]; constructor.
+    + exists i, d. split; [reflexivity|]. lia.
+    + apply IH; lia.
+Qed.
+
+Theorem move_rows_rewrite s i n d same q a row col :
+  1 <= i -> i + Z.of_nat n - 1 <= LAST_ROW -> 1 <= i + d -> i + Z.of_nat n - 1 + d <= LAST_ROW ->
+  a_sheet a = s -> resolve q a = (row, col) -> 1 <= row <= LAST_ROW -> 1 <= col <= LAST_COLUMN ->
+  exists q' a',
+    apply_disp_seq (move_disps true s i n d) same q a = RwRef q' a' /\
+    follows q' a a' (block_move i (Z.of_nat n) d row, col) /\
+    q' = (if same then (block_move i (Z.of_nat n) d (fst q), snd q) else q).
+Proof.
+  intros H1 H2 H3 H4 Hs Hres Hr Hc.
+  pose proof (move_disps_rows_valid s i n d H1 H2 H3 H4) as HF.
+  destruct (apply_disp_seq_rows s _ same q a HF Hs) as [q' [a' [t [Hseq [Hfol [Hpos Hanch]]]]]];
+    try (rewrite Hres; cbn [fst snd]; assumption).
+  exists q', a'. split; [exact Hseq|].
+  rewrite Hres, move_rows_refs_follow in Hpos. inversion Hpos; subst t. split; [exact Hfol|].
+  destruct same; [|exact Hanch]. destruct q as [qr qc]. rewrite move_rows_refs_follow in Hanch.
+  inversion Hanch. reflexivity.
+Qed.
